@@ -125,7 +125,21 @@ func crcGen(r *Rng, tier string) Case {
 	return Case{lines}
 }
 
+// partitionerMonitor: the key the real stage stamped vs the documented key of the method (C06)
+func partitionerMonitor(lines, outs []string, m *Model) []Violation {
+	for i, l := range lines {
+		if i >= len(outs) {
+			break
+		}
+		want, _ := m.Do(l)
+		if strings.HasPrefix(l, "partitioner msg") && want != outs[i] {
+			return []Violation{{"C06", "partition key " + outs[i] + " differs from the method's key " + want + " (" + lines[0] + " | " + l + ")", ""}}
+		}
+	}
+	return nil
+}
+
 func init() {
-	register(&Component{Name: "partitioner", Gen: partitionerGen, Run: partitionerRun, Quick: 500, Thorough: 20000})
+	register(&Component{Name: "partitioner", Gen: partitionerGen, Run: partitionerRun, Monitor: partitionerMonitor, Quick: 500, Thorough: 20000})
 	register(&Component{Name: "crc", Gen: crcGen, Run: crcRun, Quick: 300, Thorough: 20000})
 }
